@@ -52,6 +52,14 @@ class Ctx:
     def prog(self):
         return self.program("main")
 
+    @property
+    def af(self):
+        """Whole-program async facts (may-suspend, run-to-completion) for S-main."""
+        if not hasattr(self, "_af"):
+            from .asyncflow import AsyncFacts
+            self._af = AsyncFacts(self.prog)
+        return self._af
+
     # ---------------------------------------------------------------- obligations
     def ob(self, clause, key, kind, desc):
         o = Obligation(clause, "%s/%s" % (clause, key), kind, desc)
